@@ -8,6 +8,12 @@ COMMON_TRUSTED = [
 ]
 
 CONF = {
+    "C08": {
+        "n": {"quick": 700, "thorough": 10000},
+        "shard": 350,
+        "trusted_base": ["utils.ParseListPathComponent's regexp re-implemented as a string function (has_index_group / scan_indexes)"],
+        "assumptions": ["L and R agree wherever both define a position; every list item contains at least one scalar; path-safe keys"],
+    },
     "C07": {
         "n": {"quick": 800, "thorough": 12000},
         "shard": 400,
